@@ -2,6 +2,7 @@ import CGV.Props.C04
 import CGV.Props.C04Tree
 import CGV.Props.C04Ring
 import CGV.Props.C04Bare
+import CGV.Props.C04Anno
 #print axioms CGV.C04.C04_read_chain
 #print axioms CGV.C04.matches_chain
 #print axioms CGV.C04.fold_tail
@@ -22,3 +23,6 @@ import CGV.Props.C04Bare
 #print axioms CGV.C04.fold_body
 #print axioms CGV.C04.matches_body
 #print axioms CGV.C04.C04_read_bare_chain
+#print axioms CGV.C04.matches_chainA
+#print axioms CGV.C04.fold_tailA
+#print axioms CGV.C04.C04_read_annotated_chain
